@@ -1,0 +1,112 @@
+//go:build verif
+
+package scorch
+
+import (
+	"os"
+	"time"
+
+	"github.com/blevesearch/bleve/v2/util"
+)
+
+// Exported views of the snapshot-epoch key codec (int.go) for the /verif correspondence
+// harness (cmd/c13codec).  Built only with -tags verif.
+
+// VerifEncodeUvarintAscending is encodeUvarintAscending.
+func VerifEncodeUvarintAscending(b []byte, v uint64) []byte {
+	return encodeUvarintAscending(b, v)
+}
+
+// VerifDecodeUvarintAscending is decodeUvarintAscending.
+func VerifDecodeUvarintAscending(b []byte) ([]byte, uint64, error) {
+	return decodeUvarintAscending(b)
+}
+
+// VerifEpochKeysResult is what a root.bolt holding the given snapshot buckets looks like to the
+// readers of the snapshots bucket.
+type VerifEpochKeysResult struct {
+	Keys        [][]byte // the keys of the snapshots bucket as a cursor lists them (First .. Next)
+	Points      []uint64 // epochs of RollbackPoints(dir), in the order returned
+	BoltEpochs  []uint64 // RootBoltSnapshotEpochs, in the order returned
+	PointsError string
+}
+
+// VerifEpochKeysOnBolt creates dir/root.bolt with one snapshot bucket per epoch (named by the
+// real encoder) and one per raw key (only the meta bucket with a time stamp, which is all
+// RollbackPoints needs to list a point), then reads it back through the bolt cursor,
+// RootBoltSnapshotEpochs and RollbackPoints.
+func VerifEpochKeysOnBolt(dir string, epochs []uint64, raw [][]byte) (res VerifEpochKeysResult, err error) {
+	rootBolt, err := util.OpenBolt(dir+string(os.PathSeparator)+"root.bolt", 0o600, nil)
+	if err != nil {
+		return res, err
+	}
+	closed := false
+	defer func() {
+		if !closed {
+			_ = rootBolt.Close()
+		}
+	}()
+	tsb, err := time.Unix(1_700_000_000, 0).UTC().MarshalText()
+	if err != nil {
+		return res, err
+	}
+	keys := make([][]byte, 0, len(epochs)+len(raw))
+	for _, e := range epochs {
+		keys = append(keys, encodeUvarintAscending(nil, e))
+	}
+	keys = append(keys, raw...)
+	err = rootBolt.Update(func(tx *util.BoltTxImpl) error {
+		snapshots, err := tx.CreateBucketIfNotExists(util.BoltSnapshotsBucket)
+		if err != nil {
+			return err
+		}
+		for _, k := range keys {
+			sb, err := snapshots.CreateBucketIfNotExists(k)
+			if err != nil {
+				return err
+			}
+			mb, err := sb.CreateBucketIfNotExists(util.BoltMetaDataKey)
+			if err != nil {
+				return err
+			}
+			if err = mb.Put(util.BoltMetaDataTimeStamp, tsb, nil); err != nil {
+				return err
+			}
+		}
+		return nil
+	})
+	if err != nil {
+		return res, err
+	}
+	err = rootBolt.View(func(tx *util.BoltTxImpl) error {
+		snapshots := tx.Bucket(util.BoltSnapshotsBucket)
+		if snapshots == nil {
+			return nil
+		}
+		c := snapshots.Cursor()
+		for k, _ := c.First(); k != nil; k, _ = c.Next() {
+			res.Keys = append(res.Keys, append([]byte{}, k...))
+		}
+		return nil
+	})
+	if err != nil {
+		return res, err
+	}
+	s := &Scorch{path: dir, rootBolt: rootBolt}
+	res.BoltEpochs, err = s.RootBoltSnapshotEpochs()
+	if err != nil {
+		return res, err
+	}
+	closed = true
+	if err = rootBolt.Close(); err != nil {
+		return res, err
+	}
+	points, perr := RollbackPoints(dir)
+	if perr != nil {
+		res.PointsError = perr.Error()
+	}
+	for _, p := range points {
+		res.Points = append(res.Points, p.epoch)
+	}
+	return res, nil
+}
